@@ -24,6 +24,7 @@ GET-decoded requests to the executor unmarked).
   OBLIGATION c35_witness_each_integration
   OBLIGATION c35_pinned_runs_the_mutation
   OBLIGATION c35_toggles_independent
+  OBLIGATION c35_unmarked_unsafe_iff
   OBLIGATION c35_src_get_branches
 -/
 
@@ -286,6 +287,90 @@ theorem c35_toggles_independent (i j : Integ) (hij : i ≠ j) (route : Route) (m
       cases i <;> cases j <;> first | (exfalso; exact hij rfl) | rfl
     unfold handle decodeGet
     simp only [this]
+
+/-- Exact extent of the defect: through an unmarked integration a GET request is unsafe
+    precisely when it decodes and `prepare_request` arrives at a mutation operation — then the
+    mutation runs; every other GET request is already safe on the pinned tree. -/
+theorem c35_unmarked_unsafe_iff (D : Defects) (i : Integ) (hD : D.unmarked i = true)
+    (route : Route) (acc : Accept) (r : Req) :
+    getSafe .get (.single r) (handle D i route .get acc (.single r)) = false ↔
+      ∃ g o, decodeGet D i r = .ok g ∧ prepare g = some o ∧ o.ty = .mutation := by
+  have hst : ∀ s, decodeGet D i r = .error s → s ≠ 2 := by
+    intro s h
+    unfold decodeGet at h
+    cases i <;> cases hq : r.quirk <;> simp_all [badQueryStatus]
+    all_goals (subst h; decide)
+  -- an unmarked decoder keeps document and operation name unless `query` is missing
+  have hkeep : ∀ g, decodeGet D i r = .ok g → r.quirk ≠ .noquery →
+      g.doc = r.doc ∧ g.opName = r.opName ∧ g.queryOnly = false := by
+    intro g h hq
+    unfold decodeGet at h
+    cases i <;> cases hq' : r.quirk <;> simp_all
+    all_goals (subst h; exact ⟨rfl, rfl, rfl⟩)
+  cases hd : decodeGet D i r with
+  | error s =>
+    have hh : handle D i route .get acc (.single r) = rejected s := by simp [handle, hd]
+    rw [hh]
+    constructor
+    · intro h
+      simp [getSafe, noMutationRan, rejected, answeredWithError, hst s hd] at h
+    · rintro ⟨g, o, h, _⟩
+      cases h
+  | ok g =>
+    have hh : handle D i route .get acc (.single r) = respondSingle g := by simp [handle, hd]
+    rw [hh]
+    cases hp : prepare g with
+    | none =>
+      constructor
+      · intro h
+        simp [getSafe, noMutationRan, respondSingle, execute, hp, answeredWithError, Resp.failed] at h
+      · rintro ⟨g', o, h, hp', _⟩
+        cases h
+        rw [hp] at hp'
+        cases hp'
+    | some o =>
+      obtain ⟨l, hdoc, hsel, hne, _⟩ := prepare_some_inv g o hp
+      cases hty : o.ty with
+      | mutation =>
+        constructor
+        · intro _
+          exact ⟨g, o, rfl, hp, hty⟩
+        · intro _
+          obtain ⟨f, fs, hfs⟩ := List.exists_cons_of_ne_nil hne
+          simp [getSafe, noMutationRan, respondSingle, execute, hp, executeOnce, hty, hfs,
+            entryOf_mutation]
+      | query =>
+        constructor
+        · intro h
+          exfalso
+          have hlog : (execute g).2.all (fun e => !e.isMutation) = true := by
+            simp only [execute, hp]
+            exact executeOnce_log_not_mutation g.v o (by rw [hty]; decide)
+          have hsm : selectsMutation r = false := by
+            by_cases hq : r.quirk = .noquery
+            · simp [selectsMutation, hq]
+            · obtain ⟨h1, h2, _⟩ := hkeep g hd hq
+              rw [h1] at hdoc
+              rw [h2, selectOp_eq_selected] at hsel
+              simp [selectsMutation, hdoc, hsel, hty]
+          simp [getSafe, noMutationRan, respondSingle, hlog, getRequest, hsm] at h
+        · rintro ⟨g', o', h, hp', hm⟩
+          cases h
+          rw [hp] at hp'
+          cases hp'
+          rw [hty] at hm
+          cases hm
+      | subscription =>
+        constructor
+        · intro h
+          simp [getSafe, noMutationRan, respondSingle, execute, hp, executeOnce, hty,
+            answeredWithError, Resp.failed] at h
+        · rintro ⟨g', o', h, hp', hm⟩
+          cases h
+          rw [hp] at hp'
+          cases hp'
+          rw [hty] at hm
+          cases hm
 
 -- ------------------------------------------------------------------ source tie
 
